@@ -128,3 +128,107 @@ Example C11_ex_rejects :
   /\ accepts cfg [ERecv 3 (1%N, GOrig); ERecv 4 (1%N, GOrig); EFinish 4; EFinish 3; EReturn; EReturn] = false
   /\ accepts cfg [ERecv 3 (1%N, GOrig); ERecv 4 (1%N, GOrig); EFinish 4; EFinish 4; EFinish 3; EReturn] = false.
 Proof. vm_compute. repeat split; reflexivity. Qed.
+
+(** ** Source tie: the model and the text of /repo/processing/processing.go
+
+    REGENERATED on every run (translator/pipe.go -> coq/gen/PipeGen.v): [gen_pipe_skeleton], every statement of
+    ProcessFeatures, readFeaturesFromSource, processFeatures, writeFeaturesToTargets (and its two goroutine function
+    literals), processMultiPolygon, polygonsToMulti as a term of the skeleton language of Pipe/Skeleton.v —
+    make(chan) with its buffer size, go, defer, wg.Add / Done / Wait, send, `v, ok := <-ch`, close, the loops, the
+    type switch, panics, calls — every other statement as [SOther "<source text>"]; the signatures of the interface
+    methods that are handed a channel; the other functions of package processing that contain any concurrency
+    construct (none).  The translator refuses what it does not know (select, a receive in another form, a channel
+    handed to an unknown function, range over a channel ...): the generated file then does not compile.
+
+    STAYS MODELLED / TRUSTED: the labelled transition system Pipe/Model.v itself; [model_skeleton] (Pipe/Skeleton.v)
+    is its hand-written transcription, statement by statement with the label / state that models it; the contracts of
+    Source.ReadFeatures and Target.WriteFeatures (code outside processing.go); for level 2 the small-step semantics
+    Pipe/SkeletonSem.v and the reading of the labels as communication actions ([label_events], Pipe/SkeletonSim.v). *)
+From Coq Require Import String.
+From Texel Require Import Pipe.Skeleton Pipe.SkeletonSem Pipe.SkeletonSim Pipe.ProofsSkeleton Pipe.ProofsGenSkeleton.
+From Texel.Gen Require Import PipeGen.
+
+(** Level 1 — a checked transcription: the regenerated skeleton IS the skeleton the model was written from.  An edit
+    of one of these functions (wg.Add moved into the goroutine, a buffered channel, an early return without close, a
+    send inside a select, a changed loop, a dropped statement) changes the left-hand side. *)
+Theorem C11_source_tie_skeleton : gen_pipe_skeleton = model_skeleton.
+Proof. exact gen_skeleton_is_model. Qed.
+Print Assumptions C11_source_tie_skeleton.
+
+(** Level 2 — PARTIAL (one direction): every run of the model — any configuration whose targets are the keys of a map
+    (well-formed features NOT assumed: the runs into the model's panics are covered), any schedule — is a run of the
+    skeleton semantics of the regenerated skeleton from ProcessFeatures(source, targets, f): the steps are
+    [impl_run], the channel / wait group / goroutine actions performed are exactly those the labels stand for
+    ([events_run]), and the state reached is the one the model state stands for ([abs]: program point and variables
+    of every goroutine, the closed flag of every channel, both wait group counters; after a panic: a panicked program).
+    MISSING: the converse (every run of the skeleton semantics is, up to the order of independent steps and the
+    data the skeleton does not follow, a run of the model); it needs a commutation argument for the steps the model
+    takes atomically (LMainStart, LRouterSpawn) and is not proved.  So this theorem shows that the model does nothing
+    the code cannot do; that the code does nothing the model cannot do rests on level 1 and on the recorded
+    histories of harness_pipe. *)
+Theorem C11_source_tie_model_runs_are_skeleton_runs_partial : forall cfg ls s,
+  NoDup (c_targets cfg) -> exec cfg (init cfg) ls s ->
+  exists g, grun (program gen_pipe_skeleton) (ginit (program gen_pipe_skeleton) (c_targets cfg))
+                 (impl_run cfg 0 (init cfg) ls) = Some (g, events_run cfg (init cfg) ls)
+            /\ stands_for cfg (gh_run cfg 0 (init cfg) ls) s g.
+Proof. exact gen_model_run_is_skeleton_run. Qed.
+Print Assumptions C11_source_tie_model_runs_are_skeleton_runs_partial.
+
+(** ... and a complete run of the model (all modelled processes gone) is a run of the skeleton semantics after which
+    EVERY goroutine has returned — Main, Router, Snapper, Reader and one Writer per target *)
+Theorem C11_source_tie_complete_runs_partial : forall cfg ls s, wf_config cfg ->
+  exec cfg (init cfg) ls s -> final s = true ->
+  exists g, grun (program gen_pipe_skeleton) (ginit (program gen_pipe_skeleton) (c_targets cfg))
+                 (impl_run cfg 0 (init cfg) ls) = Some (g, events_run cfg (init cfg) ls)
+            /\ gfinal g = true.
+Proof. exact gen_complete_model_run_is_complete_skeleton_run. Qed.
+Print Assumptions C11_source_tie_complete_runs_partial.
+
+(** the regenerated skeleton runs: the schedule [pick_last] of [ex_cfg] (3 targets, 4 features of all kinds, 52 labels)
+    as 298 steps of the skeleton semantics; all 7 goroutines end; the communication actions in order *)
+Example C11_ex_skeleton_runs :
+  let ls := fst (run_sched ex_cfg pick_last 1000 (init ex_cfg)) in
+  let Pg := program gen_pipe_skeleton in
+  exists g, grun Pg (ginit Pg (c_targets ex_cfg)) (impl_run ex_cfg 0 (init ex_cfg) ls) = Some (g, events_run ex_cfg (init ex_cfg) ls)
+            /\ gfinal g = true /\ List.length (g_threads g) = 7%nat /\ g_chans g = [true; true; true; true; true]
+            /\ g_wgs g = [0%nat; 0%nat] /\ List.length (impl_run ex_cfg 0 (init ex_cfg) ls) = 298%nat
+            /\ firstn 12 (events_run ex_cfg (init ex_cfg) ls)
+               = [EvNewChan 0; EvNewChan 1; EvNewWg 0; EvWgAdd 0 1; EvGo 1; EvGo 2; EvGo 3;
+                  EvNewWg 1; EvNewChan 2; EvWgAdd 1 1; EvGo 4; EvNewChan 3].
+Proof. cbv zeta. eexists. split; [vm_compute; reflexivity|]. vm_compute. repeat split; reflexivity. Qed.
+
+(** the semantics tells the skeleton from its usual mutants: with wg.Add(1) moved into the goroutine, Main can pass
+    its wg.Wait() and return before anything else has run; in the regenerated skeleton Main is blocked there *)
+Example C11_ex_semantics_sees_wg_add_moved :
+  let mutate (f : func) :=
+    if String.eqb (fn_name f) "ProcessFeatures"
+    then MkFunc (fn_name f) (fn_params f) (fn_results f)
+           (firstn 5 (fn_body f)
+            ++ [SGoFunc [] [SWgAdd "wg" "1"; SDefer (SWgDone "wg"); SCall "" "writeFeaturesToTargets" ["featuresAfter"; "targets"]] []]
+            ++ skipn 7 (fn_body f))%list
+    else f in
+  let Pm := (map mutate (sk_funcs gen_pipe_skeleton) ++ contracts)%list in
+  let Pg := program gen_pipe_skeleton in
+  let main := map (ALocal 0) in
+  (exists g, grun Pm (ginit Pm []) (main [CNone; CNone; CNone; CNone; CIter None; CNone; CNone; CNone; CNone; CNone; CNone])
+             = Some (g, [EvNewChan 0; EvNewChan 1; EvNewWg 0; EvGo 1; EvGo 2; EvGo 3; EvWgWait 0; EvExit 0]))
+  /\ (exists g, grun Pg (ginit Pg []) (main [CNone; CNone; CNone; CNone; CIter None; CNone; CNone; CNone; CNone; CNone])
+                = Some (g, [EvNewChan 0; EvNewChan 1; EvNewWg 0; EvWgAdd 0 1; EvGo 1; EvGo 2; EvGo 3]))
+  /\ grun Pg (ginit Pg []) (main [CNone; CNone; CNone; CNone; CIter None; CNone; CNone; CNone; CNone; CNone; CNone]) = None.
+Proof. cbv zeta. split; [eexists; vm_compute; reflexivity|]. split; [eexists; vm_compute; reflexivity | vm_compute; reflexivity]. Qed.
+
+(** no statement of the regenerated skeleton (and of the two contracts) that takes part in the concurrency is left out
+    by the model: each of them is executed by the steps that the labels of two model runs stand for — the complete
+    run above and the run into the panic "no new polygon" (41 statement names; the two wait groups share the names
+    wgnew / wgadd / wgdone / wgwait wg: [C11_ex_skeleton_runs] shows EvNewWg 0 and EvNewWg 1, and both counters at 0) *)
+Example C11_ex_every_comm_statement_runs :
+  let Pg := program gen_pipe_skeleton in
+  let keys cfg ls := grun_keys Pg (ginit Pg (c_targets cfg)) (impl_run cfg 0 (init cfg) ls) in
+  let bad := MkConfig [3] [MkFeature 1%N (KPolygon [(3, [])])] in
+  covered (keys_of_funcs Pg)
+          (keys ex_cfg (fst (run_sched ex_cfg pick_last 1000 (init ex_cfg)))
+           ++ keys bad [LMainStart; LReadSend; LSnapCompute; LSnapSend 3])%list = []
+  /\ covered (keys_of_funcs Pg) (keys ex_cfg (fst (run_sched ex_cfg pick_last 1000 (init ex_cfg))))
+     = ["panic fmt.Errorf(""no new polygon for level %v"", tmID)"%string]
+  /\ List.length (keys_of_funcs Pg) = 41%nat.
+Proof. vm_compute. repeat split; reflexivity. Qed.
